@@ -741,6 +741,16 @@ def oracle(spec: dict, passes: list[str], seed: int, protos=None, raised=None, u
         try:
             ref = run_exec(mp, vals)
         except Exception as e:  # noqa: BLE001
+            if "Mismatch lengths between the number of inputs" in str(e) and spec.get("judge") != "ort":
+                # the reference evaluator cannot call a function with trailing optional inputs omitted (legal ONNX, what
+                # trailing-input trimming produces): let onnxruntime judge this step
+                try:
+                    o0, o1 = ort_run(mp0, vals, ov), ort_run(mp, vals, ov)
+                    if len(o0) == len(o1) and all(G.same_value(a, b) for a, b in zip(o0, o1)):
+                        info["judge_fallback"] = "onnxruntime"
+                        continue
+                except Exception:  # noqa: BLE001
+                    pass
             bad.append(f"execution-fails-after: step {i} {name}: {type(e).__name__}: {str(e)[:160]}")
             break
         if len(ref) != len(ref0):
